@@ -737,6 +737,15 @@ def judge_c16(scn, run) -> Tuple[List[Viol], Dict[str, int]]:
         if upd:
             cnt(c, "probe:update-only")
         # ---- fault clause: an empty reply anywhere => RuntimeError or unsuccessful response
+        rpw = reads_per_write(op)
+        if "eof" not in modes and b"" in rpw:
+            # the application read an empty reply although the device sent none such (its own transport was already
+            # closed, say): the same clause applies to what it read
+            cnt(c, "judged-empty-read-step-%d" % (rpw.index(b"") + 1))
+            if not (is_runtime_error(op.outcome) or op.outcome[0] == "ok" and op.outcome[1].get("successful") is False):
+                v.append(("C16/success-after-empty-reply/read%d" % (rpw.index(b"") + 1),
+                          "read %d was empty but control_breeze_device(%s) ended with %r" % (rpw.index(b"") + 1, a, op.outcome[:2])))
+            continue
         if "eof" in modes:
             cnt(c, "judged-eof-step-%d" % (modes.index("eof") + 1))
             ok = is_runtime_error(op.outcome) or \
